@@ -188,6 +188,17 @@ def run_shard(sh, rec):
             wb = t_scalar(w, g) * (_det(*g) if pseudo_w else 1)
         stb = {"w": wb.astype(real_t), "u": t_vector(u, g).astype(real_t), "f": t_vector(f, g).astype(real_t) if f is not None else None, "U": t_const(U, g)}
         try:
+            # warm-up step on both objects (related by g as well) so that the compared step is each object's SECOND step:
+            # state left behind in solver/scratch buffers by an earlier step must not break the symmetry either
+            w_ = util.compact(rng, shape, m, "spikes", real_t, lead=lead)
+            u_ = util.field(rng, (d,) + shape, "smooth", real_t)
+            f_ = util.compact(rng, shape, m, "noise", real_t, lead=(d,)) if base["forcing"] else None
+            st_ = {"w": w_, "u": u_, "f": f_, "U": U}
+            wb_ = t_vector(w_, g, pseudo=pseudo_w) if vec_primary else t_scalar(w_, g) * (_det(*g) if pseudo_w else 1)
+            stb_ = {"w": wb_.astype(real_t), "u": t_vector(u_, g).astype(real_t), "f": t_vector(f_, g).astype(real_t) if f_ is not None else None, "U": t_const(U, g)}
+            _step(sa, st_, dt, kind)
+            _step(sb, stb_, dt, kind)
+            rec.count("warmup_steps", 2)
             wa, ua = _step(sa, st, dt, kind)
             wb2, ub2 = _step(sb, stb, dt, kind)
             # noise floor from the real code
